@@ -18,7 +18,50 @@ HOOKS = {
     "add_only": True,
 }
 
+K_TRUST = ["Kani 0.68.0 (its model of Rust semantics and of the standard library), CBMC 6.11.0, cadical"]
+
 PROPS = {
+    "C11": {
+        "bin": "c11",
+        "engine": "K+S",
+        "kani": {
+            "quick": ["c11_lower_idx_f32_n2", "c11_lower_idx_i32_n4", "c11_lower_idx_i64_n4"],
+            "thorough": ["c11_lower_idx_f32_n2", "c11_lower_idx_f32_n3", "c11_lower_idx_f32_n4", "c11_lower_idx_f32_n5", "c11_lower_idx_f32_n6", "c11_lower_idx_f64_n2", "c11_lower_idx_f64_n3",
+                         "c11_lower_idx_f64_n4", "c11_lower_idx_f64_n5", "c11_lower_idx_i32_n4", "c11_lower_idx_i32_n6", "c11_lower_idx_i64_n4", "c11_index_left_of_1d_2d_f64"],
+            "timeout_s": {"quick": 1200, "thorough": 6 * 3600},
+            "functions": ["vector_extensions::VectorExtensions::get_lower_index", "interp1d::strategies::linear::Linear::calc_frac", "interp1d::Interp1D::get_index_left_of", "interp2d::Interp2D::get_index_left_of"],
+            "bounds": {"quick": ["engine K: get_lower_index on ArrayView1<f32> of length 2, ArrayView1<i32> and <i64> of length 4; array contents and query fully symbolic (all bit patterns) under the statement's preconditions; unwinding assertions on"],
+                       "thorough": ["engine K: get_lower_index on f32 lengths 2..6, f64 lengths 2..5, i32 lengths 4 and 6, i64 length 4, and Interp1D / Interp2D::get_index_left_of (3 and 3x2 points, f64); contents and query fully symbolic"]},
+            "assumptions": ["Kani harness preconditions = those of the statement: strictly increasing axis, span and (len-1)/span finite, query not NaN; integers: |axis| <= 5e8 (i32) / 2e18 (i64) and |query| <= twice that, so span and query - first do not overflow"],
+        },
+        "explanation": "Engine K (Kani/CBMC, bit-precise): the real get_lower_index on the f32 / f64 / i32 / i64 monomorphs with array contents and query fully symbolic under exactly the stated preconditions; asserts index <= len-2, "
+                       "bracketing inside the range, clamps at and beyond both ends, and (through CBMC's own checks) no panic, no out-of-bounds index, no failed cast. Engine S (mode O): for axis lengths up to 10 (16) the clamps, "
+                       "EVERY possible initial guess 0..=len-2 and the binary search are explored and z3 proves per path that the returned index brackets the query for all IEEE axis values and queries.",
+        "trusted_base": O_TRUST + K_TRUST,
+        "technique": "Kani/CBMC bit-precise proof harnesses over kani::any() arrays and queries (float arithmetic of the guess included) + symbolic execution of the search with z3 QF_FP for longer axes",
+        "level_text": "Bounded model checking: engine K decides the complete routine (guess arithmetic, cast, search) for all bit patterns at small lengths; engine S decides the search for every guess position and every order position of the query up to length 10 / 16. Right level: the floats adjacent to each knot, +-inf, +-MAX and -0 are ordinary values of the symbolic query.",
+        "level_note": "Trusted: Kani, CBMC, engine S, z3. Lengths above the bounds (10^4 of the quantifier text; f32 guess overflow at n >= 2^23) are outside. f64 at lengths 2..5 and f32 at 3..6 only in the thorough tier (minutes to hours of SAT time each).",
+    },
+    "C12": {
+        "bin": "c12",
+        "engine": "K+S",
+        "kani": {
+            "quick": ["c12_mono_f64_len6", "c12_mono_i32_len6"],
+            "thorough": ["c12_mono_f64_len6", "c12_mono_f32_len6", "c12_mono_f64_len8", "c12_mono_i32_len6", "c12_mono_i64_len6", "c12_mono_i32_len8", "c12_mono_f64_strided_reversed"],
+            "timeout_s": {"quick": 1200, "thorough": 6 * 3600},
+            "functions": ["vector_extensions::VectorExtensions::monotonic_prop", "vector_extensions::MonotonicState::update", "vector_extensions::MonotonicState::finish", "vector_extensions::MonotonicState::short_circuit"],
+            "bounds": {"quick": ["engine K: monotonic_prop on ArrayView1<f64> and <i32>, symbolic length 0..6, contents fully symbolic (NaN included), against the definition computed by straight loops over consecutive pairs"],
+                       "thorough": ["engine K: f64 / f32 / i32 / i64 with symbolic length 0..6, f64 and i32 0..8, stride-2 and reversed stride -2 views of a larger symbolic array"]},
+            "assumptions": [],
+        },
+        "explanation": "Engine K: the real monotonic_prop on f64 / f32 / i32 / i64 views of symbolic length with fully symbolic contents against the definition (class and strictness for NaN-free input, 'not Rising' for input "
+                       "containing NaN). Engine S (mode O): every path of the state machine for lengths 0..10 (13) - i.e. every distinguishable sequence of consecutive-pair relations incl. unordered - with z3 proving the returned "
+                       "class equals the SMT-written definition for all IEEE values.",
+        "trusted_base": O_TRUST + K_TRUST,
+        "technique": "Kani/CBMC proof harnesses with symbolic length and contents + exhaustive symbolic path exploration of the state machine with z3 QF_FP per path",
+        "level_text": "Bounded model checking of the 6-state classifier: all bit patterns at lengths <= 6 (8) on four element types and strided / reversed views (engine K); all relation sequences up to length 10 (13) for f64 (engine S).",
+        "level_note": "Trusted: Kani, CBMC, engine S, z3. Lengths above the bounds are outside (13 suffices to separate automata of <= 7 states, as the property notes).",
+    },
     "C10": {
         "bin": "c10",
         "explanation": "Mode O decision-table checking of the real builders: structural cases (static / dynamic rank incl. too small, data length 0..min+1, axis length n-1/n/n+1 or default, boundary-array shapes, 2-D with x and y independent, "
@@ -113,6 +156,15 @@ PROPS = {
     },
     "C05": {
         "bin": "c05",
+        "engine": "S+K",
+        "kani": {
+            "quick": ["c05_in_range_f64", "c05_in_range_f32", "c05_in_xy_range_f64"],
+            "thorough": ["c05_in_range_f64", "c05_in_range_f32", "c05_in_xy_range_f64"],
+            "timeout_s": {"quick": 900, "thorough": 1800},
+            "functions": ["interp1d::Interp1D::is_in_range", "interp2d::Interp2D::is_in_x_range", "interp2d::Interp2D::is_in_y_range", "interp1d::Interp1D::index_point", "interp2d::Interp2D::index_point"],
+            "bounds": ["engine K: is_in_range / is_in_x_range / is_in_y_range / index_point through new_unchecked over views, f64 (3 and 2x3 points) and f32 (2 points), all bit patterns of axis and query"],
+            "assumptions": [],
+        },
         "explanation": "Bounded symbolic checking in mode O of every non-extrapolating strategy (Linear, five CubicSpline boundary selections incl. Periodic, Bilinear) behind every "
                        "entry point: axis values are solver variables under x_i < x_i+1, data and every query element are unconstrained IEEE doubles. For each feasible path z3 "
                        "(FloatingPoint theory, bit-precise comparisons) proves Ok => every element in the closed range and OutOfBounds => some element outside (NaN counts as outside); "
